@@ -785,7 +785,7 @@ def run(ck):
         return max(1, int((thor if thorough else quick) * scale))
     ck.extra["scale"] = scale
     n_trees = N(4000, 50000)
-    n_tree_model = N(700, 7000)
+    n_tree_model = N(550, 7000)
     maxdepth = 6 if thorough else 4
     n_model = 0
     skipped = 0
@@ -1018,7 +1018,7 @@ def run(ck):
     lap('ndarray')
     # ---------------- stream 4: ==, <, <=, >, >= covariance; mismatch => DimensionalityError
     cmp_n = N(600, 3000)
-    cmp_model = N(60, 600)
+    cmp_model = N(40, 600)
     for i in range(cmp_n):
         d = runits()
         a = ("Q", rmag(), d)
@@ -1104,7 +1104,7 @@ def run(ck):
         return ("M", {u_: F(1)})
 
     off_n = N(300, 2500)
-    off_model = N(50, 600)
+    off_model = N(30, 600)
     for i in range(off_n if offs else 0):
         dk = rng.choice(offs)[4]
         ra = F(rng.randint(0, 6000), 10)
